@@ -33,6 +33,11 @@ def run(ctx):
             ctx.count(sha([o["via"], o["sizes"], [(r["off"], r["ln"]) for r in o["reads"]]]), o["span"])
     for i in rejected:
         o = obs[i]
+        if "merge" in ctx.reject_detail.get(i, ""):
+            # growth: merge-cars is not part of C16's statement
+            ctx.drift += 1
+            ctx.extra.setdefault("merge_cars_drift", []).append(f"merge-cars over {len(o['pieces'])} pieces wrote {o['mergedlen']} bytes, the pieces hold {o['mergewant']}")
+            continue
         if o["kind"] == "split":
             why = o["err"] or "pieces / readback differ from the original block families"
             ctx.violation({"op": "split-car", "why": why[:40]}, f"split-car target={o['target']} ({o['blocks']} blocks, {len(o['pieces'])} pieces): {why}",
